@@ -54,7 +54,7 @@ TraceEpochTick == AtLine("EpochTick") /\ Line.fired /\ EpochTick /\ Stim
 TraceHeadEvent == AtLine("HeadEvent") /\ (\E o \in BOOLEAN : HeadEvent(o)) /\ Stim
 TraceFire == AtLine("Fire") /\ Line.fired /\ Fire(<<Line.k, Line.n>>, Line.h) /\ Stim
 TraceHold == AtLine("Hold") /\ Hold(Line.k, Line.on) /\ Stim
-TraceRelease == AtLine("Release") /\ Line.released /\ (\E t \in tasks : t.k = Line.k /\ t.key = Line.n /\ Release(t)) /\ Stim
+TraceRelease == AtLine("Release") /\ Line.released /\ (\E t \in tasks : t.k = Line.k /\ t.key = Line.n /\ t.ver = Line.ver /\ Release(t)) /\ Stim
 
 \* two tasks at work on the same duty kind and epoch / period: their steps do not commute
 Active == {t \in tasks : t.st # "held"}
@@ -91,8 +91,8 @@ NoDuplicateNames(line) == Cardinality({<<j.k, j.n>> : j \in SeqToSet(line.jobs)}
 LoggedDone(line) ==
     LET recs == [i \in 1..Len(line.done) |-> [k |-> line.done[i].k, n |-> line.done[i].n, vals |-> SeqToSet(line.done[i].vals)]]
     IN [x \in {recs[i] : i \in 1..Len(recs)} |-> Cardinality({i \in 1..Len(recs) : recs[i] = x})]
-LoggedHeld(line) == {<<line.held[i].k, line.held[i].key>> : i \in 1..Len(line.held)}
-HeldView == {<<t.k, t.key>> : t \in {x \in tasks : x.st = "held"}}
+LoggedHeld(line) == {<<line.held[i].k, line.held[i].key, line.held[i].ver>> : i \in 1..Len(line.held)}
+HeldView == {<<t.k, t.key, t.ver>> : t \in {x \in tasks : x.st = "held"}}
 HeldCount == LET H == {x \in tasks : x.st = "held"}
                  RECURSIVE Sum(_)
                  Sum(S) == IF S = {} THEN 0 ELSE LET x == CHOOSE y \in S : TRUE IN x.cnt + Sum(S \ {x})
